@@ -519,7 +519,7 @@ theorem procs_exec (o : Oracle) (cfg : ScalarCfg) (st : ISt) (y : PyVal) (hy : s
 
 /-! ### the gate: coercer, or exact type -/
 
-theorem applyCoerce_rej_kind (o : Oracle) (ty : Ty) (c : CoerceK) (x : PyVal) (k : ErrK) (t : List Ev)
+theorem scalarCoerce_rej_kind (o : Oracle) (ty : Ty) (c : CoerceK) (x : PyVal) (k : ErrK) (t : List Ev)
     (h : applyCoerce o ty ty default c x = .rej k t) : k = .coercion (compatOf ty c) ty := by
   cases c with
   | dflt =>
@@ -540,7 +540,7 @@ theorem applyCoerce_rej_kind (o : Oracle) (ty : Ty) (c : CoerceK) (x : PyVal) (k
     · simp at h
     · simp only [Gate.rej.injEq] at h; rw [← h.1]; rfl
 
-theorem applyCoerce_noexn (o : Oracle) (ty : Ty) (c : CoerceK) (x : PyVal) (e : Exn) (t : List Ev) :
+theorem scalarCoerce_noexn (o : Oracle) (ty : Ty) (c : CoerceK) (x : PyVal) (e : Exn) (t : List Ev) :
     applyCoerce o ty ty default c x ≠ .exn e t := by
   cases c with
   | dflt => simp only [applyCoerce]; split <;> simp
@@ -605,9 +605,9 @@ theorem gate_exec (o : Oracle) (cfg : ScalarCfg) (st : ISt) (x : PyVal) (hx : st
       simp [IExp.eval, IEnv.get, h1, truthyDV]
     rw [hnot _ (callCoercer o cfg.ty c x).1 (by simp [IEnv.set])]
     cases hg : applyCoerce o cfg.ty cfg.ty default c x with
-    | exn e t => exact absurd hg (applyCoerce_noexn o cfg.ty c x e t)
+    | exn e t => exact absurd hg (scalarCoerce_noexn o cfg.ty c x e t)
     | rej k t =>
-      have hk := applyCoerce_rej_kind o cfg.ty c x k t hg
+      have hk := scalarCoerce_rej_kind o cfg.ty c x k t hg
       have hcc : callCoercer o cfg.ty c x = (none, t) := by simp [callCoercer, hg]
       simp only [hcc, Option.isSome_none, Bool.not_false, truthyDV]
       refine ⟨?_, ?_⟩
